@@ -438,8 +438,25 @@ func init() {
 		}
 		return nil
 	})
+	// sync.Pool: Get hands back the object most recently Put into this pool, if any (what the runtime does on
+	// one P, and the behaviour under which a use-after-Put shows), otherwise New()
+	pooled := func(in *Interp, p Value) *[]Value {
+		if in.pools == nil {
+			in.pools = map[string]*[]Value{}
+		}
+		k := ptrKey(p.(Ptr))
+		if in.pools[k] == nil {
+			in.pools[k] = new([]Value)
+		}
+		return in.pools[k]
+	}
 	reg("(*sync.Pool).Get", func(in *Interp, c *Frame, fn *ssa.Function, a []Value) Value {
 		p := a[0].(Ptr)
+		if st := pooled(in, p); len(*st) > 0 {
+			v := (*st)[len(*st)-1]
+			*st = (*st)[:len(*st)-1]
+			return v
+		}
 		pool := in.load(p).(*Agg)
 		// New is the last field
 		nf, _ := pool.e[len(pool.e)-1].(*Closure)
@@ -448,7 +465,11 @@ func init() {
 		}
 		return in.callClosure(nf, nil, c)
 	})
-	reg("(*sync.Pool).Put", nop)
+	reg("(*sync.Pool).Put", func(in *Interp, c *Frame, fn *ssa.Function, a []Value) Value {
+		st := pooled(in, a[0])
+		*st = append(*st, a[1])
+		return nil
+	})
 	reg("runtime.GOMAXPROCS", func(in *Interp, c *Frame, fn *ssa.Function, a []Value) Value { return in.st.Const(64, 1) })
 	reg("runtime.NumCPU", func(in *Interp, c *Frame, fn *ssa.Function, a []Value) Value { return in.st.Const(64, 1) })
 
